@@ -149,6 +149,10 @@ def faultfree(t, attach=None, force=None) -> Ctx:
     # a quarter of the runs: the handlers already completed a transfer (any mode / closure), followed by idle time
     # that may exceed every timer interval (the clock is virtual)
     perturb_irrelevant_config(w, t)
+    if t.choose(3, "short receiver check interval") == 2:
+        # on an in-order link the receiver never starts its check timer, so its interval may be short; the sender's
+        # stays far away (the two are separate settings of the check timer provider)
+        cfg.check_s_recv = 0.3
     if t.choose(4, "prelude") == 3:
         same = bool(t.choose(2, "prelude same request"))
         prelude(w, same_request=same, idle_ms=[0, 5000, 200_000_000][t.choose(3, "prelude idle")],
@@ -343,6 +347,47 @@ def _mk_extra(kind, who, dur, extras):
             w.push(w.clock.t + dur, ("fn", heal))
 
     return fn
+
+
+def silence(t, attach=None, force=None) -> Ctx:
+    """Acknowledged transfer during which one direction of the link (or both) goes silent for good after a
+    tape-chosen handler call; nothing is demanded about the outcome (limits fault, cancel exchanges, abandonment)."""
+    f = {"mode": ACK, "shell": "history", "metadata_only": False, "poll_ms": [100, 50, 200][t.choose(3, "poll")]}
+    if force:
+        f.update(force)
+    cfg = Cfg.draw(t, f)
+    if cfg.size // max(cfg.eff_seg, 1) > 30:
+        cfg.size_sel = 6
+        cfg.finish()
+    w = World(t, cfg)
+    ctx = Ctx(w, "silence")
+    perturb_irrelevant_config(w, t)
+    cut_after = 1 + t.choose(30, "cut after call")
+    dirs = [("a",), ("b",), ("a", "b")][t.choose(3, "cut dirs")]
+    if t.choose(2, "pre faults"):
+        w.link.enabled = {"drop"}
+        w.link.rate = (1, 4)
+        w.link.budget = 1 + t.choose(2, "pre fault budget")
+    state = {"done": False}
+
+    class Cut:
+        def on_call(self, w2, rec):
+            if not state["done"] and rec.seq >= cut_after:
+                state["done"] = True
+                for d in dirs:
+                    w2.link.partition[d] = True
+                w2.log.append(f"  SILENCE {'+'.join(dirs)}")
+
+    w.monitors.append(Cut())
+    unit = max(cfg.ack_s, cfg.nak_s)
+    bound = int((2 * cfg.ack_lim + cfg.nak_lim + 4) * unit * 1000) + 3000
+    w.max_events = 30000
+    w.max_t = 10_000_000
+    _start(ctx, attach)
+    ctx.reason = w.run(until=lambda w2: w2.clock.t > bound)
+    ctx.nontrivial = state["done"]
+    ctx.info["extras"] = {"silence": 1 if state["done"] else 0}
+    return ctx
 
 
 # ---------------------------------------------------------------------------------------------
